@@ -13,7 +13,8 @@
 (*                    a  parameter (token position class, CIM status code) *)
 (* plus `good`: productions appended to the valid text that is compiled on *)
 (* the same compiler object after the session (empty for most sessions;    *)
-(* parts F and H).                                                         *)
+(* parts F and H), or the whole - invalid - text of that later call (part  *)
+(* I).                                                                     *)
 (* The harness (harness/mofgen.py) renders a session to real MOF text and  *)
 (* files; TLC enumerates the sessions (Sessions below) and judges what the *)
 (* real compiler did with them (Fails).                                    *)
@@ -75,7 +76,8 @@ NoneVariants(k) ==
                           "nonascii_string", "num_forms", "multistring",
                           "comments", "crlf", "upper_kw", "no_alias",
                           "emb_ok", "ref_alias", "null_values",
-                          "emb_array_ok", "emb_array_one", "of_prev"}
+                          "emb_array_ok", "emb_array_one", "of_prev",
+                          "emb_multiline", "emb_array_multiline"}
     [] k = "include"  -> {"inc2"}
     [] k = "namespace" -> {"same", "other", "leading_slash", "unknown_pragma",
                            "locale", "other_full"}
@@ -93,6 +95,14 @@ NoneVariants(k) ==
 \*                       of several strings, an array of one string); like an
 \*                       include, the nested compile replaces and must restore
 \*                       the parser's notion of the current text
+\*   instance emb_multiline / emb_array_multiline
+\*                       the same with nested texts of MANY LINES (the line
+\*                       ends are written as \n escapes inside the string
+\*                       literal, so the nested text has more lines than the
+\*                       text it stands in): the nested compile counts lines
+\*                       of its own text; the line count of every other text -
+\*                       the enclosing one, an included one, the text of a
+\*                       later compile call - starts at 1
 \*   namespace other_full
 \*                       switch (by pragma, inside the text) to a namespace that
 \*                       holds everything the productions of the session need
@@ -344,10 +354,11 @@ SessionsC(kinds) ==
 
 (*  D    nested compile, then an error: a valid production that runs a      *)
 (*       nested compile (embedded value: scalar, array, array of one) and   *)
-(*       after it, in the same text (D1) or in the including text (D2),     *)
-(*       every defective focus production: the error must be positioned in  *)
-(*       the text it stands in although the parser was busy with another    *)
-(*       text in between                                                    *)
+(*       after it, in the same text (D1), in the including text (D2) or in  *)
+(*       a file included after it (D3: main = nested, include; the error in *)
+(*       the included file), every defective focus production: the error    *)
+(*       must be positioned in the text it stands in although the parser    *)
+(*       and the lexer were busy with another text in between               *)
 (*  E    declare, then use: every focus production of kind class (valid     *)
 (*       variants, value and dependency defects, mutations) followed by an  *)
 (*       instance of the class it declares (E2) or by a subclass and an     *)
@@ -356,15 +367,20 @@ SessionsC(kinds) ==
 OfPrev == P("instance", "none", "of_prev", 0)
 SubOfPrev == P("class", "none", "sub_of_prev", 0)
 NestedOk == {P("instance", "none", v, 0)
-             : v \in {"emb_ok", "emb_array_ok", "emb_array_one"}}
+             : v \in {"emb_ok", "emb_array_ok", "emb_array_one",
+                      "emb_multiline", "emb_array_multiline"}}
+\* the nested text has line ends
+EmbLines(p) == p \in NestedOk /\ p.v \in {"emb_multiline", "emb_array_multiline"}
 Helpers == NestedOk \cup {OfPrev, SubOfPrev}
 ErrClasses == {"lex", "syntax", "value", "dependency"}
 
 SessionsD(kinds) ==
-  {[main |-> IF j = 1 THEN <<n, f>> ELSE <<Inc2, f>>,
-    inc |-> IF j = 1 THEN << >> ELSE <<n>>, good |-> << >>]
+  {[main |-> IF j = 1 THEN <<n, f>> ELSE IF j = 2 THEN <<Inc2, f>>
+              ELSE <<n, Inc2>>,
+    inc |-> IF j = 1 THEN << >> ELSE IF j = 2 THEN <<n>> ELSE <<f>>,
+    good |-> << >>]
    : f \in {x \in FocusOf(kinds) : x.d \in ErrClasses /\ ~IncOnly(x)},
-     n \in NestedOk, j \in 1..2}
+     n \in NestedOk, j \in 1..3}
 
 SessionsE(kinds) ==
   {[main |-> IF j = 2 THEN <<f, OfPrev>> ELSE <<f, SubOfPrev, OfPrev>>,
@@ -420,6 +436,24 @@ ResolvesAncestry(p) == p.v \in {"of_undeclared", "subinst_undeclared"}
 \* the text of the later call names a class that has no valid declaration
 LaterUndeclared(ses) == \E i \in DOMAIN ses.good : ses.good[i] \in Later
 
+(*  I    nested compile in an EARLIER call, then an error in a later call:  *)
+(*       a valid text that runs a nested compile (every NestedOk variant),  *)
+(*       and afterwards - another compile call on the same compiler object  *)
+(*       - a text that consists of one defective focus production (every    *)
+(*       lex / syntax / value / dependency defect of every kind but         *)
+(*       include, whose files belong to the first text).  The later text is *)
+(*       not valid MOF: only Total / PositionInside constrain the later     *)
+(*       call - its error must be positioned inside the LATER text, however *)
+(*       many lines the texts of earlier calls had.                         *)
+LaterError(ses) == ses.good # << >> /\ ses.good[1].d \in ErrClasses
+\* the text of the later call is not valid MOF (parts H and I)
+LaterInvalid(ses) == LaterUndeclared(ses) \/ LaterError(ses)
+
+SessionsI(kinds) ==
+  {[main |-> <<n>>, inc |-> << >>, good |-> <<f>>]
+   : f \in {x \in FocusOf(kinds) : x.d \in ErrClasses /\ x.k # "include"},
+     n \in NestedOk}
+
 SessionsF(kinds) ==
   {[main |-> <<f>>, inc |-> << >>, good |-> <<r>>]
    : f \in {x \in FocusOf(kinds \cap {"class"})
@@ -439,14 +473,15 @@ SessionsG(kinds) ==
               : x.d \in {"none", "value", "dependency"}}}
 
 SessionParts(maxprod, kinds) ==
-  [i \in 1..(maxprod + 7) |->
+  [i \in 1..(maxprod + 8) |->
      IF i <= maxprod THEN SessionsA(i, kinds)
      ELSE IF i = maxprod + 1 THEN SessionsB(kinds)
      ELSE IF i = maxprod + 2 THEN SessionsC(kinds)
      ELSE IF i = maxprod + 3 THEN SessionsD(kinds)
      ELSE IF i = maxprod + 4 THEN SessionsE(kinds)
      ELSE IF i = maxprod + 5 THEN SessionsF(kinds)
-     ELSE IF i = maxprod + 6 THEN SessionsG(kinds) ELSE SessionsH(kinds)]
+     ELSE IF i = maxprod + 6 THEN SessionsG(kinds)
+     ELSE IF i = maxprod + 7 THEN SessionsH(kinds) ELSE SessionsI(kinds)]
 
 AllProds(ses) == Rng(ses.main) \cup Rng(ses.inc)
 
@@ -508,9 +543,10 @@ Fails(s, e) ==
   \cup F("PositionInside.Column",
          ~positioned \/ ~(\E i \in Cands(e) : LineOk(e, i))
          \/ \E i \in Cands(e) : LineOk(e, i) /\ ColOk(e, i))
-  \* part H: the text of the later call is not valid MOF (it names a class
-  \* without a valid declaration); the statement promises nothing about its
-  \* result, only that the call is total
+  \* parts H, I: the text of the later call is not valid MOF (it names a
+  \* class without a valid declaration / it is a defective production); the
+  \* statement promises nothing about its result, only that the call is
+  \* total and that an error is positioned inside that text
   \cup (IF e.call = "good" /\ s.failed /\ s.handle # "mockapi" /\ ~s.undecl
         THEN F("Harness.ReferenceCompileOk",
                e.refout = "ok" \/ (s.retry /\ e.refout \in MOFErrors))
@@ -531,5 +567,5 @@ Apply(s, e) ==
    handle |-> IF e.call = "bad" THEN e.ses.handle ELSE s.handle,
    \* part F: the good text depends on a class the session dealt with
    retry |-> IF e.call = "bad" THEN e.ses.good # << >> ELSE s.retry,
-   undecl |-> IF e.call = "bad" THEN LaterUndeclared(e.ses) ELSE s.undecl]
+   undecl |-> IF e.call = "bad" THEN LaterInvalid(e.ses) ELSE s.undecl]
 =============================================================================
